@@ -3,7 +3,7 @@ import core
 from core import hx
 
 ID = "C08"
-READY = False
+READY = True
 ORACLE = "c08"
 HARNESS_BIN = "c08"
 NCASES = {"quick": 16000, "thorough": 300000}
@@ -12,33 +12,42 @@ MODES = ["Zero", "Away", "Up", "Down", "HalfEven", "HalfAway"]
 BASES = [2, 2, 3, 8, 10, 10, 16, 36]
 TARGETS = [2, 3, 10, 16]
 
-LEVEL_TEXT = ("Coq theorems: the as-is model of the float parser (Repr::from_str_native transcribed on byte lists over the proved "
-              "integer parser specification) returns exactly the written value and digit count on every text assembled by the "
-              "documented grammar; the as-is model of the printer (fmt_round: rounding to the formatter precision, digit layout, "
-              "padding) equals the layout specification, whose rounding is spec_round (T_round: the regenerated tables); printing "
-              "without options followed by parsing is the identity on normalised floats; with_precision = repr_round meets the "
-              "contract; the convert_base routes (same base, power-related bases, small exponents by exact power / repr_div) are "
-              "modelled and proved exact-or-correctly-rounded; the precision rule NewB^p' <= B^p; IEEE import is exact. Every "
-              "implementation answer of all APIs in observe_at is decided by the extracted specifications / contract checker.")
-LEVEL_NOTE = ("Trusted: Coq kernel, translator (round_low_part bodies), extraction + FastZ.v, zarith, harness. The large-exponent route of "
-              "convert_base (ln/exp at doubled precision) is not proved: its answers are decided case by case by the contract checker "
-              "against the exact rational. Debug output is compared only at shape level. UBig::from_str_radix / in_radix printing are "
-              "taken at their C07 specifications; IBig arithmetic is Z (C01/C02).")
-TECHNIQUE = "Coq proof (as-is models of parser/printer/convert_base routes = specification) + extracted specification and contract checker on a correspondence run"
+LEVEL_TEXT = ("Coq theorems for all inputs: (1) the as-is model of the float parser (Repr::from_str_native transcribed on byte lists: sign, rfind of "
+              "the scale marker, isize scale, point, hexadecimal form, digit counting, final normalisation; UBig::from_str_radix at its C07 "
+              "specification) returns exactly the written value and the number of written digits on every text the documented grammar accepts "
+              "(parse_spec = the grammar read left to right); (2) the as-is model of Display (fmt_round: rounding by round_fract, digit string, "
+              "cut at the point, zero filling) prints exactly the specified text, whose rounding is spec_round (T_round over the regenerated "
+              "tables); (3) printing without options and parsing the text gives the same normalised float back, on the specification and on the "
+              "as-is models; (4) with_precision (as-is) = specification, which errs by less than one unit of the last kept digit, at most half "
+              "in the nearest modes, on the side of the mode, with a truthful Exact/Inexact flag and p digits; (5) the modelled routes of "
+              "convert_base (same base, power-related bases, exact power for 0 <= e <= 38, exact long division) return the specification "
+              "rounding of the exact value; the precision rule NewB^p' <= B^p < NewB^(p'+1); ilog_exact. Every implementation answer of all "
+              "APIs in observe_at is decided by the extracted specifications / the contract checker.")
+LEVEL_NOTE = ("Partial: the large-exponent route of convert_base (|e| > 38, ln/exp) is not modelled; its answers are decided case by case by the "
+              "contract checker against the exact rational and it is an OPEN finding (not faithful). The reverse direction of the parser theorem "
+              "(no text outside the grammar is accepted) is only compared (malformed-text stream), not proved. LowerExp/UpperExp layout, the "
+              "short-dividend repr_div route (C03 theorem repr_div_spec) and IEEE import are compared against executable specifications, the "
+              "as-is models of all of them agree with the implementation on every case of the run (model_fidelity). Padding (width/fill/"
+              "alignment/zero flag) is outside the property: the verdict is taken on sign + body, the as-is model reproduces the padding "
+              "including its deviations from core::fmt. Debug output is compared at shape level. Trusted: Coq kernel, translator "
+              "(round_low_part bodies), extraction + FastZ.v, zarith, harness; UBig::from_str_radix / in_radix at their C07 specifications; "
+              "IBig arithmetic is Z (C01/C02).")
+TECHNIQUE = "Coq proof (as-is models of parser, printer, with_precision, convert_base routes = specification; print->parse round trip) + extracted specification and contract checker on a correspondence run"
 RULE = ("cases = API (FromStr / from_str_native for FBig and Repr; Display, LowerExp, UpperExp, Debug for FBig and Repr with flags + 0 < > ^ "
         "x width x precision option; print-then-parse round trips; with_precision; with_base, with_base_and_precision, to_decimal, "
         "to_binary; TryFrom<f32/f64> for FBig and Repr) x base {2,3,8,10,16,36} (targets {2,3,10,16}) x six modes x precision "
         "{0 (unlimited),1,2,3,5,10,17,24,53,64,100} x significand digit counts {1,2,p-1,p} incl. all-(B-1) and 10..0 patterns x "
-        "exponents {0, +-1, +-2, -d-1..-d+1, +-37, +-38, +-39 (the small-exponent threshold), +-100, +-1000, +-10^4}; texts: every "
+        "exponents {0, +-1, +-2, -d-1..-d+1, +-37, +-38, +-39 (the small-exponent threshold), +-100, +-1000, +-3000 (10^4 thorough)}; texts: every "
         "form of the documented grammar (sign, digits with underscores and leading zeros, point with either side empty, all scale "
-        "markers in both cases, hex-float form, signed scales with leading zeros) plus a malformed stream (mutations by inserting, "
+        "markers in both cases, hex-float form, signed scales with leading zeros up to the ends of isize) plus a malformed stream (mutations by inserting, "
         "deleting, doubling characters from a set of signs, markers, separators, prefixes, non-ASCII); IEEE bit patterns: zeros, "
         "subnormals, extremes of each class, infinities, NaNs, random. non-trivial = the text was accepted / a rounding or a "
         "conversion was performed / the oracle evaluated the specification on a finite value; distinct = distinct case texts.")
-EXPLANATION = ("Verdicts: parse_spec (grammar read left to right) for texts; display_spec / sci_spec (layout + spec_round + padding) for "
-               "printed texts; with_precision_spec; Contract.check_contract against the exact rational s*B^e for base changes "
+EXPLANATION = ("Verdicts: parse_spec (grammar read left to right) for texts; display_body_spec / sci_body_spec (layout + spec_round) for "
+               "printed texts modulo padding (layout_ok); with_precision_spec; Contract.check_contract against the exact rational s*B^e for base changes "
                "(error < 1 ulp of the target precision, <= 1/2 for nearest modes, side, truthful flag, exact if representable, at "
-               "most p+1 digits) together with the precision rule; ieee_decode for f32/f64.")
+               "most p+1 digits) together with the precision rule; ieee_decode for f32/f64. known:convert_base_large_exp_not_faithful only for "
+               "the ln/exp route (bases not powers of one another, |exponent| > 38, limited precision) when the contract fails.")
 TRUSTED_BASE = [
     "Coq 8.16.1 kernel",
     "tools/translate.py renders the six round_low_part bodies of float/src/round.rs faithfully",
